@@ -22,6 +22,29 @@ ASSUMPTIONS = ["nom primitives consume exactly their width and decode big-endian
 IP = "variable_versions::ipfix::"
 
 
+def set_id_dispatch_rule(ctx, prog, an, rid, only_data=False):
+    """IPFIX set-id dispatch, evaluated path-sensitively for concrete ids: 2 reaches the template parser only, 3 the
+    options-template parser only, 255 / 256 / 1000 / 65535 (data sets) neither - a data set is never read as a template
+    record (shared: C05 R5.2; C06 R6.11, C07 R7.7, C10 R10.9 use the data-set half)."""
+    fb = classifier_inlined(prog, IP + "FlowSetBody::parse")
+    if not ctx.anchor(rid, IP + "FlowSetBody::parse", fb):
+        return
+    tpl = {"Template": "<%sTemplate as nom_derive::Parse" % IP, "OptionsTemplate": "<%sOptionsTemplate as nom_derive::Parse" % IP}
+    table = ((2, {"Template"}), (3, {"OptionsTemplate"}), (255, set()), (256, set()), (1000, set()), (65535, set()))
+    for idv, want in table:
+        if only_data and want:
+            continue
+        r = reach_assuming(an, fb, {canon(("arg", 3)): idv})
+
+        def tname(nd):
+            for k, pre in tpl.items():
+                if nd["path"].startswith(pre):
+                    return k
+            return None
+        got = local_callees_reaching(prog, fb, r, tname)
+        ctx.ob(rid, fb.path, "id=%d" % idv, got == want, "set id %d reaches template parsers %s, expected %s" % (idv, sorted(got), sorted(want)))
+
+
 def run(ctx, env):
     prog = env.prog("default")
     an = An(prog)
@@ -49,18 +72,7 @@ def run(ctx, env):
         if "ipfix" in o["func"] or o["detail"].startswith("floor"):
             ctx.ob("R5.1", o["func"], o["detail"], o["status"] == "discharged", o["reason"], o["site"])
     # R5.2
-    fb = classifier_inlined(prog, IP + "FlowSetBody::parse")
-    if ctx.anchor("R5.2", IP + "FlowSetBody::parse", fb):
-        tpl = {"Template": "<%sTemplate as nom_derive::Parse" % IP, "OptionsTemplate": "<%sOptionsTemplate as nom_derive::Parse" % IP}
-        for idv, want in ((2, {"Template"}), (3, {"OptionsTemplate"}), (255, set()), (256, set()), (1000, set()), (65535, set())):
-            r = reach_assuming(an, fb, {canon(("arg", 3)): idv})
-            def tname(nd):
-                for k, pre in tpl.items():
-                    if nd["path"].startswith(pre):
-                        return k
-                return None
-            got = local_callees_reaching(prog, fb, r, tname)
-            ctx.ob("R5.2", fb.path, "id=%d" % idv, got == want, "set id %d reaches template parsers %s, expected %s" % (idv, sorted(got), sorted(want)))
+    set_id_dispatch_rule(ctx, prog, an, "R5.2")
     # R5.8
     ctx.rule("R5.8", "a field value is reported as sent: in every arm of FieldValue::from_field_type (private helpers inlined) no arithmetic, clamping or narrowing cast is applied to a value read from the input bytes, and each dateTime kind gets its unit from the Duration constructor of that unit (shared with C04 R4.11)")
     from . import valuepath
